@@ -378,7 +378,8 @@ impl ActorCell {
             #[cfg(feature = "verif")]
             crate::verif::point(crate::verif::pt::TERMINATE_VISIT, crate::verif::id_u64(&actor.get_id()), actor.get_status() as u64);
             // We don't need to notify of exit if we're already stopping or stopped.
-            if actor.get_status() <= ActorStatus::Upgrading {
+            // A draining actor is still running (working through its backlog) and must be killed too.
+            if actor.get_status() < ActorStatus::Stopping {
                 actor.kill();
             }
 
